@@ -134,7 +134,15 @@ func (c *connection) write() {
 	for {
 		select {
 		case <-c.stopChan:
-			clear(record)
+			// 连接结束 等待中的和排队中的平台下发请求都要有回复 否则调用方会一直阻塞
+			closedErr := errors.Join(ErrWriteDataFail, errors.New("connection closed"))
+			for seq, v := range record {
+				v.replyChan <- newErrMessage(closedErr)
+				delete(record, seq)
+			}
+			for activeMsg := range c.activeMsgChan {
+				activeMsg.replyChan <- newErrMessage(closedErr)
+			}
 			return
 		case activeMsg, ok := <-c.activeMsgChan: // 平台主动下发的
 			if ok {
